@@ -651,3 +651,68 @@ from contracts import C03_inputs  # noqa: E402
 
 for _c in (C03_inputs.wf_amend_step, C08_claims.define_step, C03_inputs.supply_files_assumed):
     _c.partial_props = dict(_c.partial_props, C09=["call.Node.add_source"])
+
+
+# ---------------------------------------------------------------- File.initialize_row: which state a (re)created file gets
+
+
+class _FirGraph:
+    def __init__(self, db):
+        self.db = db
+
+    def mark_file_outdated(self, file):
+        cur().event("fir.mark_file_outdated", file=file)
+
+
+def _fir_self(args):
+    def remember(row, a):
+        cur().data["fir.row"] = row
+        return True
+
+    db = DbStub("db", [("SELECT state, hash FROM file WHERE node", ty.TupleOf(ty.EnumOf(FileState), ty.Opt(ty.Str)), remember)])
+    f = fresh_node(File, None, "self")
+    f._fields["graph"] = _FirGraph(db)
+    return f
+
+
+def _fir_finish(c, outcome, args, old):
+    """The state written is the requested one, except that a node that was BUILT or OUTDATED keeps that state (and its
+    hash) when it is re-created as UNDECLARED or PLANNED; a file that ends up BUILT is immediately marked outdated (a
+    recycled output is never taken for final).  One upsert, for this node."""
+    if outcome[0] != "return":
+        return
+    me, req = args["self"], args["state"]
+    ups = [e for e in c.trace if e.kind == "sql" and e.norm.upper().startswith("INSERT INTO FILE")]
+    c.prove("one_upsert", tm.mk_bool(len(ups) == 1 and isinstance(ups[0].args, dict)), kind="trace")
+    if len(ups) != 1 or not isinstance(ups[0].args, dict):
+        return
+    a = ups[0].args
+    sel = [e for e in c.trace if e.kind == "sql.fetchone"]
+    reqt = I(req)
+    soft = tm.Or(tm.Eq(reqt, tm.mk_int(FileState.UNDECLARED.value)), tm.Eq(reqt, tm.mk_int(FileState.PLANNED.value)))
+    c.prove("the_old_row_is_read_iff_the_request_is_soft", tm.Iff(tm.mk_bool(len(sel) == 1), soft), kind="trace")
+    written = I(a["state"])
+    built, outd = tm.mk_int(FileState.BUILT.value), tm.mk_int(FileState.OUTDATED.value)
+    hash_none = a["hash"].isnone if isinstance(a["hash"], sym.SymOpt) else tm.mk_bool(a["hash"] is None)
+    row = c.data.get("fir.row") if (len(sel) == 1 and c.known.get(sel[0].isnone.s) is False) else None
+    if row is None:
+        # no previous row (or a request that is not soft): the requested state, no hash
+        c.prove("without_a_previous_row_the_request_is_written", tm.And(tm.Eq(written, reqt), hash_none), kind="post")
+    else:
+        r = I(row[0])
+        was_output = tm.Or(tm.Eq(r, built), tm.Eq(r, outd))
+        c.prove("a_previous_output_state_is_kept_with_its_hash", tm.Implies(was_output, tm.And(
+            tm.Eq(written, r), B(sym.sym_eq_val(a["hash"], row[1])))), kind="post")
+        c.prove("otherwise_the_request_is_written", tm.Implies(tm.Not(was_output), tm.And(tm.Eq(written, reqt), hash_none)), kind="post")
+    c.prove("for_this_node", tm.Eq(I(a["node"]), I(me.i)), kind="post")
+    marks = [e for e in c.trace if e.kind == "fir.mark_file_outdated"]
+    c.prove("a_built_file_is_marked_outdated", tm.Iff(tm.mk_bool(len(marks) == 1 and all(e.file is me for e in marks)), tm.Eq(written, built)), kind="post")
+
+
+_fir = file_initialize_row
+_fir.assume_post = _fir.ensures  # the effect on the ghost view of the tables stays an assumption exported to callers
+_fir.ensures = None
+_fir.verify = True
+_fir.props = ["C09"]
+_fir.args = dict(self=_fir_self, state=ty.EnumOf(FileState))
+_fir.finish = _fir_finish
